@@ -18,8 +18,14 @@ ASSUMPTIONS = ['scanner re-basing (prechecked concretely per skeleton, linked na
                'stderr formatting stubbed (numbers kept as terms)',
                'P and Q are comment text; other surroundings are covered by the skeleton family']
 
+# partition of the first character of the fully symbolic string (union = every code point)
+ANYPARTS = [[(0, 0x20)], [(0x21, 0x2C)], [(0x2D, 0x2D), (0x60, 0x60)], [(0x2E, 0x5B)],
+            [(0x5C, 0x5C)], [(0x5D, 0x5F), (0x61, 0xFF)], [(0x100, 0x10FFFF)]]
+
 
 def items(tier, seed):
+    from vf import sketch
+    assert sketch.covers('ANY', ANYPARTS)
     out = []
     docs = [(n, s, o) for n, (s, o) in skeletons.WELL.items()]
     docs += [('F:' + n, s, o) for n, (s, o) in skeletons.FAULTY.items()]
@@ -70,7 +76,13 @@ def items(tier, seed):
     # the whole filter on every string of <= N arbitrary characters (all code points)
     for n in range(0, 3 if tier == 'quick' else 4):
         for ml in (False, True):
-            out.append({'h': 'any', 'N': n, 'ml': ml, 'cost': 30 ** n, 'budget': 900 if n < 3 else 4000})
+            if n < 3:
+                out.append({'h': 'any', 'N': n, 'ml': ml, 'cost': 30 ** n, 'budget': 900})
+            else:
+                # partitioned by the first character: parallel work items
+                for k in range(len(ANYPARTS)):
+                    out.append({'h': 'any', 'N': n, 'ml': ml, 'part': k, 'cost': 30 ** n,
+                                'budget': 1500})
     # vacuity twins: the same harness with the upper bound lowered by one must be refuted
     out.append({'h': 'off', 'name': 'twin', 'S': 'A $x', 'opts': {}, 'ml': False, 'twin': True})
     out.append({'h': 'off', 'name': 'twin2', 'S': 'A B', 'opts': {}, 'ml': False, 'twin': True})
@@ -133,8 +145,9 @@ def build_any(item):
                 if not (1 <= p <= len(doc)):
                     return 'C01 range: map[%d]=%d not in 1..%d for %r' % (k, p, len(doc), doc)
         return None
+    fr = ANYPARTS[item['part']] if 'part' in item else None
     return sketch.make('', '', 'ANY', n, {'lang': 'de'} if item['ml'] else {}, orc, ml=item['ml'],
-                       lmin=n, splice=False, accept_exit=True)
+                       lmin=n, splice=False, accept_exit=True, first_ranges=fr)
 
 
 def build(item):
